@@ -412,6 +412,35 @@ func ruleSkipBounded(r *Report) {
 			continue
 		}
 		o.OnlyAfterSuccess(rule, key, fn, "the size check", A, "the seek", B, nil)
+		// what is checked is what is sought: the offset handed to the check helper and the one handed to Seek are one value
+		// (a check of the payload end without the header passes for a file cut inside the last few bytes of the record)
+		for _, a := range A {
+			c := a.Instr.(*ssa.Call)
+			if CalleeKey(c) == "os.File.Stat" {
+				continue // inline check: the comparison itself is not pinned here
+			}
+			args := argsOf(c)
+			if len(args) == 0 {
+				continue
+			}
+			// the check helper itself (it asks the file for its size), not a version-specific flavour that is delegated to
+			if sc := c.Call.StaticCallee(); sc == nil || len(CallsIn(sc, Keys("os.File.Stat"))) == 0 {
+				continue
+			}
+			ckey := rule + "/" + k + "/checked-is-sought"
+			same := true
+			for _, b := range B {
+				sa := b.Call().Common().Args
+				if stripConvert(sa[len(sa)-2]) != stripConvert(args[len(args)-1]) {
+					same = false
+				}
+			}
+			if same {
+				r.OK(rule, ckey, a.Pos(), "the checked offset is the seek target")
+			} else {
+				r.Bad(rule, ckey, a.Pos(), "the offset that is checked against the file size is not the offset that is sought (the header length is added afterwards): a file cut within the last bytes of a record lets SkipNext succeed on a record that is not completely contained")
+			}
+		}
 	}
 }
 
@@ -635,5 +664,42 @@ func ruleHeaderSizesChecked(r *Report) {
 			continue
 		}
 		o.OnlyAfterSuccess(rule, key, fn, "the size plausibility check", checks, "using the sizes", uses, nil)
+	}
+	// the bound on the expansion must admit everything the supported codecs can produce: deflate reaches 1032:1 on long
+	// runs, 12 bit LZW about 1340:1 at 8 MiB and more beyond (the reader must accept what the writer wrote)
+	if fn := p.Func("recordio.checkRecordSizes"); fn != nil {
+		key := rule + "/recordio.checkRecordSizes/expansion-bound-admits-codecs"
+		const need = 2800
+		bound := int64(-1)
+		eachInstr(fn, func(s Site) {
+			bo, ok := s.Instr.(*ssa.BinOp)
+			if !ok {
+				return
+			}
+			po := paramOrigin(stripConvert(bo.X))
+			if po == nil || po.Parent() != fn {
+				return
+			}
+			k, isK := constInt(bo.Y)
+			if !isK {
+				return
+			}
+			switch bo.Op {
+			case token.QUO:
+				bound = k
+			case token.SHR:
+				if k < 62 {
+					bound = int64(1) << uint(k)
+				}
+			}
+		})
+		switch {
+		case bound < 0:
+			r.Unk(rule, key, fn.Pos(), "the expansion bound (a division or shift of the uncompressed size by a constant) was not recognised")
+		case bound < need:
+			r.Bad(rule, key, fn.Pos(), fmt.Sprintf("the expansion bound is %d:1, below what the supported codecs reach on highly compressible records (deflate ≈1030:1, LZW ≈1340:1 and more): a record the writer wrote — 4 MiB of one byte with LZW, 16 MiB with gzip — is rejected by the native reader while the schema reader decodes it", bound))
+		default:
+			r.OK(rule, key, fn.Pos(), fmt.Sprintf("expansion bound %d:1", bound))
+		}
 	}
 }
